@@ -440,6 +440,10 @@ def create_for_single_files_subcommand(
 
     hash_format_list = sorted(hash_formats)
 
+    # a file that is named twice (directly, or once more through a named folder) is recorded once per run: a record
+    # holds one entry per hash format
+    sealed_paths = set()
+
     for path in single_file:
         if not os.path.isabs(path):
             path = os.path.join(os.getcwd(), path)
@@ -447,8 +451,9 @@ def create_for_single_files_subcommand(
             for folder_path, children in post_order_lexicographic(path, session.ignore_spec.get_path_spec()):
                 for item_name, is_dir in children:
                     file_path = os.path.join(folder_path, item_name)
-                    if is_dir:
+                    if is_dir or os.path.normpath(file_path) in sealed_paths:
                         continue
+                    sealed_paths.add(os.path.normpath(file_path))
                     seal_result = seal_file_path(existing_history, file_path, hash_format_list, session)
                     # Determine success based on the first format in the list
                     # TODO: Consider checking all results.  Would it be practical to do so?
@@ -456,7 +461,8 @@ def create_for_single_files_subcommand(
                     success = seal_result[hash_format_list[0]].success
                     if not success:
                         num_failed_verifications += 1
-        else:
+        elif os.path.normpath(path) not in sealed_paths:
+            sealed_paths.add(os.path.normpath(path))
             seal_result = seal_file_path(existing_history, path, hash_format_list, session)
             success = seal_result[hash_format_list[0]].success
             if not success:
